@@ -82,7 +82,7 @@ def module_hash(module, cfgs=()):
 
 
 def harness_hash():
-    return file_hash(tree_files(HARNESS + '/src') + tree_files(HARNESS + '/fixtures') + [HARNESS + '/Cargo.toml', V + '/vlib.py', V + '/check', V + '/known_findings.json'])
+    return file_hash(tree_files(HARNESS + '/src') + tree_files(HARNESS + '/fixtures') + [HARNESS + '/Cargo.toml', V + '/vlib.py', V + '/groups.py', V + '/check', V + '/known_findings.json'])
 
 
 _built = False
